@@ -35,7 +35,7 @@ CHECKS.update({
                 text="Every episode of every compiled instance (recorded and generated graphs, 3 supergraph modes x prune x S_init) is executed generation by generation by RexSchedule: EachVertexOnce, InSeqOrder, ProducersFirst, SupClosesPartition, CarriesOwnTimes, CarriesOwnWindow, RequiredExecuted."),
     "C08": dict(level="model_checking", ref="6 C08",
                 technique="TLA+ ring-buffer machine (RexRun / RexSchedule): static replay of Graph.timings against buffer sizes + trace validation of payloads seen by probe nodes in real compiled executions; TLA+ model of the sizing rule (BufferSize) checked by TLC on every bounded schedule and replayed on the real Timings.get_buffer_sizes()",
-                text="RexRun models the output ring buffers (write at seq mod size at generation end, read at window.seq mod size); the payload of every window entry a probe saw must be what the model reads (ReadsRing) and that must be the scheduled producer emission or the default output (ScheduledPayload); buffer sizes automatic, extra_padding 0/1/3 and user-supplied (minimum..minimum+2; below the minimum must be refused)."),
+                text="RexRun models the output ring buffers (write at seq mod size at generation end, read at window.seq mod size); the payload of every window entry a probe saw must be what the model reads (ReadsRing) and that must be the scheduled producer emission or the default output (ScheduledPayload); buffer sizes automatic, extra_padding 0/1/3 and user-supplied (minimum..minimum+2; below the minimum must be refused); the sizing rule (BufferSize: FormulaSafe, Monotone) on every bounded schedule and on pairs of consumers of one producer, bound to get_buffer_sizes() / get_output_buffer(); an exception out of rex on a supported graph is a violation."),
     "C09": dict(level="model_checking", ref="6 C09",
                 technique="TLA+ API model (RexApi) enumerating call histories with their normal forms via TLC + replay on the real Graph with trace validation (RexRun API layer) and bitwise comparison of GraphStates of equal-normal-form histories",
                 text="TLC enumerates all call histories over run/reset/step/step-with-override/rollout up to the bound; each is replayed jitted (and eagerly for a sample): probe log, step counter, sequence numbers and node states must follow RexRun; histories with the same normal form must leave bitwise identical GraphState pytrees; init() clipping and params override, vmapped = un-batched, full-trajectory = carry-only rollout."),
@@ -56,7 +56,7 @@ CHECKS.update({
                 text="Each generated or augmented episode is a trace checked clause by clause against the generator law defined in TLA+ (phase, spacing, sampled durations, horizon, FIFO receive times from the support, first-step-at-or-after-arrival assignment, augmentation keeps/ adds exactly)."),
     "C14": dict(level="model_checking", ref="6 C14",
                 technique="TLA+ algebra of abstract graphs (GraphAlgebra: Strip/Index/Stack/Filter/ToNx laws) recomputing the result of every real call from its inputs",
-                text="Real records and graphs (ragged, shadow names) are pushed through to_graph / stack / index / filter / to_networkx; TLC recomputes each right-hand side from the inputs with the TLA+ definitions and compares."),
+                text="Real records and graphs (ragged, shadow names, lost messages, experiments of separately built systems) are pushed through to_graph / stack / index / filter / to_networkx; TLC recomputes each right-hand side from the inputs with the TLA+ definitions and compares."),
 })
 
 CHECKS.update({
@@ -65,10 +65,10 @@ CHECKS.update({
                 text="All sender timelines / step times / delays / windows / skip of the bounded instance; the real apply_delay must return exactly `window` entries equal to the window a static delay d would give; the two classes in which it does not (skip tie, under-sized extension) were found by TLC on the model, reproduced on the code and are listed as known findings; any other disagreement is a violation. End to end: for generated graphs with one trainable connection, every d in 0..max+1 set through the distribution, init_delays or params: the compiled run must be a behaviour of RexRun whose every common step sees what the step of the compiled static-delay system saw."),
     "C18": dict(level="model_checking", ref="6 C18",
                 technique="TLA+ solver state machine (Solvers) over all loss histories incl. NaN, checked by TLC and replayed on the real cem_update_mean_stdev; per-iteration traces of real cem_step/evo_step validated by SolversTrace",
-                text="Every loss history of the bounded instance is replayed exactly on rex.cem (best loss, best candidate, elite set); end-to-end CEM and evosax runs with NaN regions are validated iteration by iteration (bounds, monotone best, best = min finite so far, best member attained it)."),
+                text="Every loss history of the bounded instance is replayed exactly on rex.cem (best loss, best candidate, elite set); end-to-end CEM and evosax runs with NaN regions are validated iteration by iteration (bounds, monotone best, best = min finite so far, best member attained it) incl. per-dimension bounds, pinned parameters, a single elite, multi-leaf parameter trees."),
     "C19": dict(level="model_checking", ref="6 C19",
                 technique="TLA+ state machine of the wrapper stack (RlWrappers) over all reward/termination histories, replayed on a real wrapped Environment over a compiled graph",
-                text="All histories of length L: after every step the observation, flags, logged episode return/length, timestep, graph step, running moments (exact integer sums) and the supervisor output in the graph buffer must equal the model; invariants LogAccounting, AutoResetSemantics, MomentsOfEverythingSeen."),
+                text="All histories of length L: after every step the observation, flags, logged episode return/length, timestep, graph step, running moments (exact integer sums) and the supervisor output in the graph buffer must equal the model; invariants LogAccounting, AutoResetSemantics, MomentsOfEverythingSeen, ScheduleInForce (episode and schedule after an auto-reset into another recorded episode); off-centre action boxes, only_init, an observation signal shifted by 1000 (moments within float32 tolerance)."),
 })
 
 NA = {
